@@ -99,3 +99,16 @@ func ghost_durOf(s string) time.Duration         { d, _ := time.ParseDuration(s)
 func ghost_p2dOk(s string) bool                  { _, err := param2Duration(s); return err == nil }
 func ghost_p2dVal(s string) time.Duration        { d, _ := param2Duration(s); return d }
 func ghost_chased(v reflect.Value) reflect.Value { return chaseValue(v) }
+
+func ghost_rvNil(v reflect.Value) bool {
+	switch v.Kind() {
+	case reflect.Chan, reflect.Func, reflect.Interface, reflect.Map, reflect.Ptr, reflect.Slice, reflect.UnsafePointer:
+		return v.IsNil()
+	}
+	return false
+}
+
+func ghost_rvIndex(v reflect.Value, i int) reflect.Value { return v.Index(i) }
+func ghost_recValid(v reflect.Value) bool {
+	return tryRecursiveValidate(v, makeOptions(nil), nil) == nil
+}
